@@ -412,7 +412,7 @@ Theorem memory_bounded : forall fuel e code input self caller value gas ro depth
   wf_env e -> 0 <= gas < 2^32 -> 1 <= depth <= CallCreateDepth + 1 ->
   frame_reach (interp fuel e) e w0 (new_frame code input self caller value gas ro depth tr) w fr ->
   exists words, 0 <= words /\ blen (f_mem fr) = 32 * words /\
-                3 * words + words * words / 512 <= gas - f_gas fr.
+                3 * words + words * words / 512 <= gas - f_gas fr /\ 0 <= f_gas fr.
 Proof.
   intros fuel e code input self caller value gas ro depth tr w0 w fr Hwf Hgas Hdep Hreach.
   set (fr0 := new_frame code input self caller value gas ro depth tr) in *.
@@ -425,6 +425,19 @@ Proof.
     pose proof (step_mem (interp fuel e) e w1 fr1 (Z.of_nat fuel) gas Hwf (interp_good fuel e Hwf) Hg Hd ltac:(lia) Hinv) as Hm.
     pose proof (step_good (interp fuel e) e w1 fr1 (Z.of_nat fuel) Hwf (interp_good fuel e Hwf) Hg Hd) as Hs.
     rewrite Hstep in Hm, Hs. destruct Hs as (Hg' & Hd' & _). repeat split; try lia; assumption.
+Qed.
+
+(* the growth bound: the memory of a run is bounded by a function of the gas supplied — linearly by gas/3 words and,
+   through the quadratic term, by sqrt(512 gas) words (whichever is smaller) *)
+Theorem memory_growth_bound : forall fuel e code input self caller value gas ro depth tr w0 w fr,
+  wf_env e -> 0 <= gas < 2^32 -> 1 <= depth <= CallCreateDepth + 1 ->
+  frame_reach (interp fuel e) e w0 (new_frame code input self caller value gas ro depth tr) w fr ->
+  exists words, blen (f_mem fr) = 32 * words /\ 0 <= words /\ 3 * words <= gas /\ words * words <= 512 * gas + 511.
+Proof.
+  intros until fr. intros Hwf Hgas Hdep Hreach.
+  destruct (memory_bounded _ _ _ _ _ _ _ _ _ _ _ _ _ _ Hwf Hgas Hdep Hreach) as (wd & Hw & Hl & Hc & Hg).
+  exists wd. assert (0 <= wd * wd / 512) by (apply Z.div_pos; nia).
+  repeat split; try lia.
 Qed.
 
 (* non-vacuity: PUSH1 1 PUSH1 0 MSTORE reaches a frame holding one word after 12 gas (3 of them for the memory) *)
